@@ -652,11 +652,17 @@ pub fn stack(args: &Args, rep: &mut Report) {
     rep.bounds.insert("stack_ladder".into(), format!("input lengths {ladder} bytes (a geometric ladder, NOT an exhaustive range) x up to 3 alphabet symbols per definition; state-machine lexer on a thread whose stack is twice the smallest of 64 KiB / 1 MiB / 16 MiB that handles a 64-byte input; a symbol's ladder stops early when the (inherently quadratic) maximal-munch rescans make a step slower than 2 s; build {}", rep.engine));
     let child = |idx: usize, ladder: &str, stack: usize| -> ChildEnd {
         let a: Vec<String> = ["stack-child", "--prop", &args.prop, "--corpus", &args.corpus, "--only", &idx.to_string(), "--file", &format!("{stack}:{ladder}")].iter().map(|x| x.to_string()).collect();
-        run_child_limited(&exe, &a, 600, "1")
+        run_child_limited(&exe, &a, if args.tier == "thorough" { 600 } else { 150 }, "1")
     };
+    // (a change that makes every ladder time out would otherwise cost one time limit per definition:
+    // once a few definitions have failed the remaining ones are not run any more)
+    let failed = std::sync::atomic::AtomicUsize::new(0);
     let results: Vec<(usize, Option<usize>, Option<ChildEnd>)> = entries
         .par_iter()
         .map(|e| {
+            if failed.load(std::sync::atomic::Ordering::Relaxed) >= 4 {
+                return (e.idx, Some(0), None);
+            }
             let mut base = None;
             for s in [64usize << 10, 1 << 20, 16 << 20] {
                 if matches!(child(e.idx, "64", s), ChildEnd::Ok(_)) {
@@ -665,11 +671,24 @@ pub fn stack(args: &Args, rep: &mut Report) {
                 }
             }
             match base {
-                None => (e.idx, None, None),
-                Some(s) => (e.idx, Some(s), Some(child(e.idx, ladder, 2 * s))),
+                None => {
+                    failed.fetch_add(1, std::sync::atomic::Ordering::Relaxed);
+                    (e.idx, None, None)
+                }
+                Some(s) => {
+                    let end = child(e.idx, ladder, 2 * s);
+                    if !matches!(end, ChildEnd::Ok(_)) {
+                        failed.fetch_add(1, std::sync::atomic::Ordering::Relaxed);
+                    }
+                    (e.idx, Some(s), Some(end))
+                }
             }
         })
         .collect();
+    let skipped = results.iter().filter(|r| r.1 == Some(0)).count();
+    if skipped > 0 {
+        rep.notes.push(format!("{skipped} definitions were not run: four ladders had already failed"));
+    }
     for (idx, base, out) in results {
         let e = &entries[idx];
         let fail = |rep: &mut Report, what: String| {
@@ -686,11 +705,14 @@ pub fn stack(args: &Args, rep: &mut Report) {
             fail(rep, "the state-machine lexer overflows a 16 MiB stack on a 64-byte input".into());
             continue;
         };
+        if base == 0 {
+            continue;
+        }
         rep.observe(&format!("base_stack_{}KiB", base >> 10), 1);
         match out.unwrap() {
             ChildEnd::Ok(child) => rep.merge(child),
             ChildEnd::Died(w) => fail(rep, format!("the state-machine lexer handles a 64-byte input on a {} KiB stack but dies on longer inputs with twice that stack ({w}): stack use grows with the input", base >> 10)),
-            ChildEnd::TimedOut => fail(rep, "the state-machine lexer did not finish the ladder within 600 s".into()),
+            ChildEnd::TimedOut => fail(rep, "the state-machine lexer did not finish the ladder within the time limit".into()),
         }
     }
 }
